@@ -333,6 +333,17 @@ func cmdConcOrders(args []string) {
 			solo = append(solo, freshSolo(rd, i))
 		}
 		tw.Stats["fresh_process_solo_renders"] += nfiles
+		if round%3 == 1 {
+			// MANY other imports first: a File with several hundred paths that nobody has seen before is built and rendered
+			// in this process (not in the fresh processes of the references) - whatever the library remembers per process
+			// (names guessed, names handed out, text formatted) is filled far beyond what a few Files do
+			ff := jen.NewFile("flood")
+			for k := 0; k < 700; k++ {
+				ff.Var().Id("_").Op("=").Qual(fmt.Sprintf("flood/r%d/k%d/p%d", round, k, k%9), "X")
+			}
+			renderFile(ff)
+			tw.Stats["flood_files_of_700_imports"]++
+		}
 		for _, perm := range permutations(nfiles) {
 			id++
 			tw.Traces++
@@ -374,7 +385,7 @@ func cmdConcFree(args []string) {
 				st := &symtab{}
 				h := []Action{newAct("", "")}
 				for k := 0; k < 24; k++ {
-					p := fmt.Sprintf("fresh/r%dj%dk%d/pkg%d", round, i, k, k%5)
+					p := fmt.Sprintf("fresh/r%dj%dk%d/pkg%d", round, i, k, k%2) // (a dozen competitors per name: numeric suffixes of two digits)
 					h = append(h, Action{A: "Add", Tree: varQ(p, st.sym(p))})
 				}
 				h[0].Ctor = "NewFilePath"
